@@ -90,6 +90,43 @@ def run(chk):
             chk.ok("C17.perhop", hits[0][0], f"{why} (inside the hop loop)")
         else:
             chk.violation("C17.perhop", rq, pat, "inside the redirect loop", f"{why}: computed once before the loop, it is reused for other origins")
+    # hop-derived locals: a local computed from the hop's URL inside the loop must be recomputed on every path of an
+    # iteration before it is used, otherwise a later hop (another origin) sees the value derived from an earlier URL
+    if loop is not None:
+        from sa import dataflow as D
+        lids = D.loop_nodes(g, loop)
+        heads = [n for n in g.nodes if n.id in lids and n.ast is loop.test and n.in_finally_copy is None]
+        hop = {}
+        for n in g.nodes:
+            if n.id not in lids or n.kind != "stmt" or not isinstance(n.ast, (ast.Assign, ast.AnnAssign)) or getattr(n.ast, "value", None) is None:
+                continue
+            v = n.ast.value
+            if isinstance(v, ast.Await):
+                v = v.value
+            from_url = isinstance(v, ast.Call) and any(isinstance(x, ast.Name) and x.id == "url" for a in list(v.args) + [k.value for k in v.keywords] for x in ast.walk(a))
+            if from_url:
+                for name in D.node_defs(n):
+                    if name != "url":
+                        hop.setdefault(name, n)
+        n_fresh = 0
+        for name, dn in sorted(hop.items()):
+            defs = lambda n, name=name: n.id in lids and name in D.node_defs(n)
+            stale = None
+            for u in g.nodes:
+                if u.id not in lids or u.in_finally_copy is not None or name not in D.node_uses(u, include_closures=False):
+                    continue
+                path = g.find_path(heads, lambda n, u=u: n is u, defs, EXPLICIT)
+                if path is not None:
+                    stale = (u, path)
+                    break
+            n_fresh += 1
+            if stale is None:
+                chk.ok("C17.perhop", dn.ast, f"`{name}` (derived from the hop's URL by `{K.short(dn.ast.value, 50)}`) is recomputed in every iteration before any use")
+            else:
+                chk.violation("C17.perhop", stale[0].ast, K.short(stale[0].ast, 70), f"{name} = <derived from this hop's url>",
+                              f"`{name}` is derived from the hop URL but a path through an iteration reaches this use without recomputing it: the value of an earlier hop (another origin's credentials / cookies / proxy) is reused",
+                              path=g.fmt_path(stale[1]))
+        chk.expect_count("C17.perhop", n_fresh, 4, "locals derived from the hop URL")
     # ---- table ---------------------------------------------------------------------------------------------------------
     rw = [i for i in ast.walk(red) if isinstance(i, ast.If) and "resp.status == 303" in norm.raw(i.test)]
     if not rw:
